@@ -479,6 +479,7 @@ def step (s : St) (op impl : String) : St × StepOut :=
         | none => none
         | some orig => match chReadAll orig with
           | .ok fs =>
+            let fs := fs.map fun f => (f.1, f.2.1, f.2.2 ++ List.replicate (f.2.1 - f.2.2.length) 0)
             let sorted := sortByOff fs
             match (match sorted with | [] => some [] | f :: _ => reassemble f.1 sorted []) with
             | some cd =>
